@@ -14,8 +14,12 @@ Trace_RelayServer.tla (every delivered datagram must be explained by a push of t
 the receiver's id that the receiver's active connection accepted, at most once, in per-sender order).
 
 Mutation self-test (recorded 2026-09-22): `Clients::send_packet` passing `dst` instead of `src` to
-`try_send_packet` -> VIOLATION (kind=sender_id: frame from a1 arrives at b1 attributed to B);
+`try_send_packet` -> `VIOLATION property=C04`, sig kind=sender_id (mode A: "frame a2 -> B normal":
+expected b1 to receive [A, 1, normal], observed [B, 1, normal]); the same mutation is also rejected by
+trace validation (mode B: "no interleaving of the spec explains event .. recv b1 dg src B");
 undone -> exit 0.
+(Mutations are applied to a private copy of /repo and /verif under /var/tmp, built with a trimmed copy of
+the harness crate, so that the shared /repo is never left mutated while others build against it.)
 """
 import json
 
@@ -118,7 +122,9 @@ def run(ctx):
         for g in scen:
             g["cap"] = cap
         obs = rc.execute(ctx, "c04-%s" % name, scen, CONNS, cap)
-        rc.judge(ctx, "C04", scen, obs, describe)
+        bad = rc.judge(ctx, "C04", scen, obs, describe)
+        if not ctx.quick and not bad:
+            rc.binding_selftest(ctx, "C04", scen, obs)
         for g, o in zip(scen, obs):
             frames = [s for s in g["steps"] if s["op"] == "frame"]
             if len(frames) >= 2 and any(len(v) for v in (o.get("wire") or {}).values()):
@@ -129,6 +135,8 @@ def run(ctx):
     evs, res, kinds = rc.random_traces(ctx, "C04", ctx.pick(8, 60), ctx.pick(60, 120))
     if res.ok and kinds.get("recv-dg", 0) == 0:
         raise rc.ToolError("vacuity: no datagram was delivered in the random runs")
+    if not ctx.quick and res.ok:
+        rc.trace_selftest(ctx, "C04", evs)
     ctx.cov["rule"] = ("every maximal call sequence of the three generator instances (order: connects/frames/closes; classes: "
                        "all forwardable datagram classes; full: stalled receiver with queue capacity 1) up to MaxSteps "
                        "(exhaustive); non-trivial when it contains a frame, a close or a disconnect")
